@@ -63,9 +63,16 @@ def loader_ops(ctx):
     return ops, kinds
 
 
-def play_histories(ctx):
-    """accepted banks with extreme instrument fields, and instruments written through the instrument API, are played with any controller state"""
+CCS = [1, 7, 10, 11, 64, 66, 67, 74, 91, 93, 120, 121, 123]
+
+
+def play_histories(ctx, portamento=False):
+    """accepted banks with extreme instrument fields, and instruments written through the instrument API, are played with any controller state.
+    Portamento (CC5/65/84) runs in separate histories that are checked on the implementation only: the synth model does not
+    reproduce the floating-point end condition of a glide bit for bit."""
+    global CCS
     rng = ctx.rng
+    CCS = [1, 7, 10, 11, 64, 66, 67, 74, 91, 93, 120, 121, 123] + ([5, 65, 65, 84] if portamento else [])
     quick = ctx.tier == "quick"
     hs = []
     for i in range(6 if quick else 60):
@@ -94,7 +101,7 @@ def play_histories(ctx):
             elif c < 0.78:
                 h.append("cc %d 101 0" % ch); h.append("cc %d 100 0" % ch); h.append("cc %d 6 %d" % (ch, rng.choice([0, 2, 24, 127]))); h.append("cc %d 38 %d" % (ch, rng.choice([0, 64, 127])))
             elif c < 0.88:
-                h.append("cc %d %d %d" % (ch, rng.choice([1, 5, 7, 10, 11, 64, 65, 66, 67, 74, 91, 93, 120, 121, 123]), rng.choice([0, 1, 64, 127])))
+                h.append("cc %d %d %d" % (ch, rng.choice(CCS), rng.choice([0, 1, 64, 127])))
             elif c < 0.94:
                 h.append("gen %d" % rng.choice([64, 1024, 4096, 65536]))
             else:
@@ -163,6 +170,19 @@ def run(tier, replay=None):
         accepted = sum(1 for r in impl if not r.startswith("err") and not r.startswith("fault"))
         ctx.cov.update({"loader_calls": len(lops), "loader_accepted": accepted, "loader_disagreements": ndiff, "loader_input_distribution": kinds,
                         "loader_error_kinds": {errs.get(int(r.split()[1]), r): sum(1 for x in impl if x == r) for r in set(impl) if r.startswith("err ")}})
+    # ---- part 2b: the same with portamento, implementation only (sanitizers + watchdog)
+    if not replay:
+        ph = play_histories(ctx, portamento=True)[: (3 if tier == "quick" else 30)]
+        pops = [o for h in ph for o in h]
+        pimpl, _ = common.run_impl("synth", "\n".join(pops) + "\n", stateless=True, timeout=1800)
+        bad = next((k for k, r in enumerate(pimpl) if r.startswith("fault=") or r.startswith("skipped")), None)
+        ctx.cov["portamento_calls_impl_only"] = len(pops)
+        if bad is not None:
+            nfail += 1
+            start = max(i for i in range(bad + 1) if pops[i].startswith("new "))
+            ctx.violate("monitor", "# call did not return normally with portamento in use: %s\n%s\n" % (pimpl[bad][:160], "\n".join(x if len(x) < 200 else x[:60] + "..." for x in pops[start:bad + 1])))
+            common.write_replay(PROP, "monitor-full", "\n".join(pops[start:bad + 1]) + "\n")
+        play_histories.__globals__["CCS"] = [1, 7, 10, 11, 64, 66, 67, 74, 91, 93, 120, 121, 123]
     # ---- part 2: accepted banks / written instruments are playable
     if hs:
         def monitor(h, io):
